@@ -1,8 +1,265 @@
-import BddVerif.Drive.Util
-/-! Driver for C18 — stub, to be written. -/
+import BddVerif.Drive.Tables
+import BddVerif.Model.Valuation
+/-!
+Driver for C18. The model side replays every history on `PartialVal` (the vector, with its growth and
+padding); the predicate side interprets the same history as a *map* (last write per variable wins, no
+vector) and checks the observed `==`, hash equality, `extends`, `get`, conversions against the relation
+on the maps, and the observed comparator results against truth tables / sizes / order laws.
+-/
 namespace B.Drive.C18
 open B B.Drive
 
-def handle (key : String) (_ins _obs : List String) : Verdict := Verdict.bad ("key " ++ key)
+inductive HOp where
+  | set (x : Nat) (b : Bool)
+  | unset (x : Nat)
+  | idx (x : Nat) (c : Option Bool)
+  | rebuild
+  | total (bits : List Bool)
+
+def parseCell (s : String) : Option Bool := if s == "1" then some true else if s == "0" then some false else none
+
+def parseOp? (s : String) : Option HOp :=
+  let kind := s.take 1 |>.toString
+  let rest := s.drop 1 |>.toString
+  if kind == "s" then
+    match rest.splitOn "=" with
+    | [x, b] => x.toNat?.map fun x => HOp.set x (b == "1")
+    | _ => none
+  else if kind == "u" then rest.toNat?.map HOp.unset
+  else if kind == "i" then
+    match rest.splitOn "=" with
+    | [x, c] => x.toNat?.map fun x => HOp.idx x (parseCell c)
+    | _ => none
+  else if kind == "r" then some HOp.rebuild
+  else if kind == "T" then some (HOp.total (parseBits rest))
+  else none
+
+def parseHistory? (s : String) : Option (List HOp) :=
+  if s == "~" then some [] else (s.splitOn ".").mapM parseOp?
+
+/-- model side: the vector -/
+def runModel (h : List HOp) : PartialVal :=
+  h.foldl (fun p op => match op with
+    | .set x b => PartialVal.set p x b
+    | .unset x => PartialVal.unset p x
+    | .idx x c => PartialVal.setCell p x c
+    | .rebuild => PartialVal.fromValues (PartialVal.toValues p)
+    | .total bits => PartialVal.ofTotal bits) PartialVal.empty
+
+/-- predicate side: the list of writes since the last total assignment, newest first -/
+def runMap (h : List HOp) : List (Nat × Option Bool) :=
+  h.foldl (fun w op => match op with
+    | .set x b => (x, some b) :: w
+    | .unset x => (x, none) :: w
+    | .idx x c => (x, c) :: w
+    | .rebuild => w
+    | .total bits => (bits.zipIdx.map fun (b, i) => (i, some b)).reverse) []
+
+def mapGet (w : List (Nat × Option Bool)) (x : Nat) : Option Bool :=
+  match w.find? (·.1 == x) with
+  | some (_, c) => c
+  | none => none
+
+def insNat (x : Nat) : List Nat → List Nat
+  | [] => [x]
+  | y :: ys => if x < y then x :: y :: ys else if x == y then y :: ys else y :: insNat x ys
+
+/-- the variables mentioned by a write list, increasing -/
+def mapVars (w : List (Nat × Option Bool)) : List Nat := w.foldl (fun acc p => insNat p.1 acc) []
+
+def mapFixed (w : List (Nat × Option Bool)) : List (Nat × Bool) :=
+  (mapVars w).filterMap fun x => (mapGet w x).map fun b => (x, b)
+
+def cellChar : Option Bool → Char
+  | some true => '1' | some false => '0' | none => '-'
+def showCells (f : Nat → Option Bool) (k : Nat) : String := String.ofList ((List.range k).map fun i => cellChar (f i))
+def showVals (v : List (Nat × Bool)) : String :=
+  if v.isEmpty then "~" else ",".intercalate (v.map fun (x, b) => s!"{x}={if b then 1 else 0}")
+def b01 (b : Bool) : String := if b then "1" else "0"
+def showOptNat' : Option Nat → String | some x => toString x | none => "-"
+
+def modelOne (p : PartialVal) (k : Nat) : List String :=
+  [ showCells (PartialVal.get p) k, showCells (PartialVal.get p) k, showVals (PartialVal.toValues p),
+    (match PartialVal.cardinality p with | .ok c => toString c | _ => "panic"),
+    showOptNat' (PartialVal.lastFixed p), b01 (PartialVal.isEmpty p),
+    (match PartialVal.toTotal p with | some v => showBits v | none => "err") ]
+
+def modelBack (p : PartialVal) : String :=
+  match PartialVal.toTotal p with
+  | some v => b01 (PartialVal.eq (PartialVal.ofTotal v) p)
+  | none => "-"
+
+def firstFail (xs : List (Option String)) : Option String := xs.findSome? id
+def chk (b : Bool) (msg : String) : Option String := if b then none else some msg
+
+/-- the clauses about one valuation, on the observed fields `[get, idx, vals, card, last, empty, try]` -/
+def predOne (tag : String) (w : List (Nat × Option Bool)) (k : Nat) (o : List String) : Option String :=
+  match o with
+  | [get, idx, vals, card, last, empty, try_] =>
+    let fixed := mapFixed w
+    firstFail [
+      chk (get == showCells (mapGet w) k) s!"get{tag}≠last-write",
+      chk (idx == get) s!"index{tag}≠get",
+      chk (vals == showVals fixed) s!"to_values{tag}",
+      chk (card == toString fixed.length) s!"cardinality{tag}",
+      chk (last == showOptNat' (fixed.getLast?.map (·.1))) s!"last_fixed{tag}",
+      chk (empty == b01 fixed.isEmpty) s!"is_empty{tag}",
+      if try_ == "err" then none
+      else
+        let v := parseBits try_
+        chk (try_ != "panic" && fixed == v.zipIdx.map (fun (b, i) => (i, b))) s!"try_from{tag}-not-the-map" ]
+  | _ => some "fields"
+
+def ordLetter : Option Ordering → Char
+  | some .lt => 'L' | some .eq => 'E' | some .gt => 'G' | none => 'N'
+
+def model5 (a b : Arr) : String :=
+  String.ofList [
+    ordLetter (some (cmpSize a b)),
+    (match cmpCardinality a b with | .ok o => ordLetter (some o) | _ => 'P'),
+    (match cmpCardinalityStrict a b with | .ok o => ordLetter o | _ => 'P'),
+    ordLetter (cmpImplies a b),
+    ordLetter (some (cmpStructural a b)) ]
+
+def popcount (tt : Array Bool) : Nat := tt.foldl (fun acc b => if b then acc + 1 else acc) 0
+def flipLetter (c : Char) : Char := if c == 'L' then 'G' else if c == 'G' then 'L' else c
+def le (c : Char) : Bool := c == 'L' || c == 'E'
+def ge (c : Char) : Bool := c == 'G' || c == 'E'
+def natLetter (x y : Nat) : Char := if x < y then 'L' else if x == y then 'E' else 'G'
+
+/-- specification of the lexicographic order on node lists, written independently of the model:
+    the first position where the arrays differ decides; a proper prefix is smaller -/
+def specStructural (a b : Arr) : Char := Id.run do
+  for i in [0:min a.size b.size] do
+    let x := a[i]!; let y := b[i]!
+    if x != y then
+      return if x.var != y.var then natLetter x.var y.var
+        else if x.low != y.low then natLetter x.low y.low else natLetter x.high y.high
+  return natLetter a.size b.size
+
+/-- the clauses about one ordered pair, `o` = the five observed letters -/
+def predPair (tag : String) (a b : Arr) (o : String) : Option String :=
+  let cs := o.toList
+  match cs with
+  | [sz, cd, st, im, sr] =>
+    let na := numVars a; let nb := numVars b
+    if na > 12 ∨ nb > 12 then none else
+    let ta := ttOf a na; let tb := ttOf b nb
+    let ca := popcount ta; let cb := popcount tb
+    let sub := na == nb && (List.range (2 ^ na)).all fun i => !ta[i]! || tb[i]!
+    let sup := na == nb && (List.range (2 ^ na)).all fun i => !tb[i]! || ta[i]!
+    let impSpec := if na != nb then 'N' else if sub && sup then 'E' else if sub then 'L' else if sup then 'G' else 'N'
+    firstFail [
+      chk (sz == natLetter a.size b.size) s!"cmp_size{tag}",
+      chk (cd == natLetter ca cb) s!"cmp_cardinality{tag}",
+      chk (st == (if na == nb then natLetter ca cb else 'N')) s!"cmp_cardinality_strict{tag}",
+      chk (im == impSpec) s!"cmp_implies{tag}",
+      chk (sr == specStructural a b) s!"cmp_structural{tag}",
+      chk ((sr == 'E') == (a == b)) s!"cmp_structural-Equal≠=={tag}" ]
+  | _ => some "fields"
+
+def handle (key : String) (ins obs : List String) : Verdict :=
+  match key, ins with
+  | "C18.pv", [ks, h1, h2] =>
+    match ks.toNat?, parseHistory? h1, parseHistory? h2 with
+    | some k, some H1, some H2 =>
+      let p := runModel H1; let q := runModel H2
+      let modelL := modelOne p k ++ modelOne q k ++
+        [ b01 (PartialVal.eq p q), b01 (PartialVal.eq q p),
+          b01 (PartialVal.hashWrites p == PartialVal.hashWrites q),
+          b01 (PartialVal.extends_ p q), b01 (PartialVal.extends_ q p), modelBack p, modelBack q ]
+      let model := " ".intercalate modelL
+      let w1 := runMap H1; let w2 := runMap H2
+      let vars := (mapVars (w1 ++ w2))
+      let same := vars.all fun x => mapGet w1 x == mapGet w2 x
+      let ext (wa wb : List (Nat × Option Bool)) : Bool :=
+        vars.all fun x => match mapGet wb x with | some b => mapGet wa x == some b | none => true
+      let fail : Option String :=
+        if obs.length != 21 then some "fields" else
+        let o1 := obs.take 7; let o2 := (obs.drop 7).take 7
+        match obs.drop 14 with
+        | [eq12, eq21, hasheq, ext12, ext21, back1, back2] =>
+          firstFail [
+            predOne "1" w1 k o1, predOne "2" w2 k o2,
+            chk (eq12 == b01 same) "eq≠same-map", chk (eq21 == eq12) "eq-not-symmetric",
+            chk (!same || hasheq == "1") "equal-but-hash-differs",
+            chk (same || hasheq == "0") "hash-collision-on-different-maps",
+            chk (ext12 == b01 (ext w1 w2)) "extends12", chk (ext21 == b01 (ext w2 w1)) "extends21",
+            chk (back1 == "-" || back1 == "1") "from(try_from(p))≠p", chk (back2 == "-" || back2 == "1") "from(try_from(q))≠q" ]
+        | _ => some "fields"
+      let tight : Nat := match (mapFixed w1).getLast? with | some (x, _) => x + 1 | none => 0
+      let padded : Bool := p.length != tight
+      { agree := model == " ".intercalate obs, model, fail,
+        nontrivial := !(mapFixed w1).isEmpty || !(mapFixed w2).isEmpty,
+        tags := [ if same then "same-map" else "diff-map", if padded then "padded" else "tight",
+                  if (obs.getD 6 "") != "err" then "total" else "not-total",
+                  if vars.any (· ≥ 256) then "bigvar" else "smallvar" ] }
+    | _, _, _ => Verdict.bad "args"
+  | "C18.conv", [bits] =>
+    let v := parseBits bits
+    let n := v.length
+    let mA := TotalVal.toBdd v
+    let tryS := match PartialVal.toTotal (PartialVal.ofTotal v) with | some w => b01 (w == v) | none => "err"
+    let modelL := [ showVals (PartialVal.toValues (PartialVal.ofTotal v)), tryS, showArr mA,
+                    b01 (evalArr mA (valOfBits v)), (match exactCardO mA with | .ok c => toString c | _ => "panic") ]
+    let model := " ".intercalate modelL
+    match obs with
+    | [vals, try_, bdd, eval, card, wit, isv] =>
+      let fail : Option String :=
+        match parseArr? bdd with
+        | none => some ("outcome:" ++ bdd)
+        | some A =>
+          firstFail [
+            chk (vals == showVals (v.zipIdx.map fun (b, i) => (i, b))) "from(v).to_values≠v",
+            chk (try_ == "1") "try_from(from(v))≠v",
+            chk (numVars A == n) "bdd-num_vars", chk (isCanon A) "bdd-not-canonical",
+            if n ≤ 12 then
+              chk ((List.range (2 ^ n)).all fun i => (ttOf A n)[i]! == ((List.range n).all fun k => valOfIndex n i k == v.getD k false)) "bdd≠{v}"
+            else chk (A.size == n + 2 && evalArr A (valOfBits v)) "bdd≠{v}(large)",
+            chk (eval == "1") "eval_in(v)", chk (card == "1") "cardinality≠1",
+            chk (wit == "1") "sat_witness≠v", chk (isv == "1") "is_valuation" ]
+      { agree := model == " ".intercalate [vals, try_, bdd, eval, card], model, fail, nontrivial := n > 0,
+        tags := ["conv", if n ≤ 12 then "n≤12" else "n>12"] }
+    | _ => Verdict.bad "fields"
+  | "C18.ext", [bits, h] =>
+    match parseHistory? h, obs with
+    | some H, [o] =>
+      let v := parseBits bits
+      let p := runModel H
+      let model := b01 (TotalVal.extends_ v p)
+      let fixed := mapFixed (runMap H)
+      let inRange := fixed.all fun (x, _) => x < v.length
+      let spec := fixed.all fun (x, b) => v.getD x false == b
+      { agree := model == o, model,
+        fail := if inRange then chk (o == b01 spec) "extends≠all-fixed-values-agree" else none,
+        nontrivial := !fixed.isEmpty, tags := ["ext", if inRange then "in-range" else "partial-beyond-total"] }
+    | _, _ => Verdict.bad "args"
+  | "C18.cmp", [a, b, c] =>
+    match parseArr? a, parseArr? b, parseArr? c, obs with
+    | some A, some B, some C, [ab, ba, bc, ac, aa, eab, ebc, eac] =>
+      let model := " ".intercalate [model5 A B, model5 B A, model5 B C, model5 A C, model5 A A, b01 (A == B), b01 (B == C), b01 (A == C)]
+      let col (s : String) (i : Nat) : Char := s.toList.getD i '?'
+      -- order laws per comparator column: 0 size, 1 cardinality, 4 structural are total preorders;
+      -- 2 strict / 3 implies are partial (N = incomparable)
+      let laws (i : Nat) (total : Bool) : Option String :=
+        firstFail [
+          chk (col ba i == flipLetter (col ab i)) s!"antisymmetry/flip[{i}]",
+          chk (col aa i == 'E') s!"reflexivity[{i}]",
+          chk (!(le (col ab i) && le (col bc i)) || le (col ac i)) s!"transitivity≤[{i}]",
+          chk (!(ge (col ab i) && ge (col bc i)) || ge (col ac i)) s!"transitivity≥[{i}]",
+          chk (!(col ab i == 'E' && col bc i == 'E') || col ac i == 'E') s!"transitivity=[{i}]",
+          chk (!total || (col ab i != 'N' && col bc i != 'N' && col ac i != 'N')) s!"totality[{i}]" ]
+      let fail := firstFail [
+        predPair "(a,b)" A B ab, predPair "(b,a)" B A ba, predPair "(b,c)" B C bc, predPair "(a,c)" A C ac, predPair "(a,a)" A A aa,
+        laws 0 true, laws 1 true, laws 2 false, laws 3 false, laws 4 true,
+        chk (eab == b01 (A == B) && ebc == b01 (B == C) && eac == b01 (A == C)) "==≠same-array",
+        chk ((col ab 4 == 'E') == (eab == "1") && (col bc 4 == 'E') == (ebc == "1") && (col ac 4 == 'E') == (eac == "1")) "structural-Equal≠==" ]
+      { agree := model == " ".intercalate obs, model, fail,
+        nontrivial := A.size > 1 || B.size > 1 || C.size > 1,
+        tags := [ "cmp", if numVars A == numVars B && numVars B == numVars C then "same-n" else "mixed-n",
+                  if isCanon A && isCanon B && isCanon C then "canon" else "noncanon",
+                  s!"imp{col ab 3}" ] }
+    | _, _, _, _ => Verdict.bad "args"
+  | _, _ => Verdict.bad ("key " ++ key)
 
 end B.Drive.C18
